@@ -276,7 +276,20 @@ def dir_failure_play(binpath):
         shutil.rmtree(tmp, ignore_errors=True)
 
 
+# The collector cannot create its csv directory (the first cleanup put a regular
+# file there): a failing directory operation, also when the play produces no
+# data point at all.
+BLOCKED_CSV = {
+    "csv-directory-blocked-idle-play": ("role janitor\n  cleanup test -e ../../csv || touch ../../csv\nend\ncast\n  jan plays janitor\nend\nscript\n  tempo 100ms\n  storyline ..\nend\n", True),
+    "csv-directory-blocked-moods-only": ("role janitor\n  cleanup test -e ../../csv || touch ../../csv\nend\ncast\n  jan plays janitor\nend\nscript\n  tempo 100ms\n  scene a mood starts blue\n  scene b mood ends clear\n  storyline ab\nend\n", True),
+    "csv-directory-blocked-with-an-action": ("role janitor\n  cleanup test -e ../../csv || touch ../../csv\n  :sweep true\nend\ncast\n  jan plays janitor\nend\nscript\n  tempo 100ms\n  scene s entails for jan: sweep\n  storyline s\nend\n", True),
+    "csv-directory-free-idle-play": ("role janitor\n  cleanup true\nend\ncast\n  jan plays janitor\nend\nscript\n  tempo 100ms\n  storyline ..\nend\n", False),
+}
+
+
 def run_play(binpath, name, early, keepdir=None):
+    if name in BLOCKED_CSV:
+        return _run(binpath, name, early, BLOCKED_CSV[name][0], BLOCKED_CSV[name][1])
     if name in EXTRA_R:
         d = dict(cleanup="true", spot="echo s=7; sleep 30", b="ok", aud="  al expects always: [x s] < 5", interp="")
         args = []
@@ -349,6 +362,7 @@ def run(tier, seed):
     jobs = [(n, e) for n in E2E for e in (False, True)]
     jobs += [(n, e) for n in PLAIN for e in (False, True)]
     jobs += [(n, e) for n in EXTRA_R for e in (False, True)]
+    jobs += [(n, False) for n in BLOCKED_CSV]
     jobs += [(n, e) for n in ZERO for e in (False, True) for _ in range(ZERO_REPEATS[tier])]
     with concurrent.futures.ThreadPoolExecutor(max_workers=12) as ex:
         sig_futures = [ex.submit(signalled_play, bins["shakespeare"], sn) for sn in ("SIGTERM", "SIGHUP", "SIGINT")]
